@@ -28,7 +28,7 @@ ASSUMPTIONS = [
     "the configured lag is the one the program implements: a replaced path is "
     "deleted when n-1 (n = ensembles+1) later replacements are queued",
 ]
-MUST_REACH = ["roundtrip", "delete_watch"]
+MUST_REACH = ["companion_kept", "roundtrip", "delete_watch"]
 JOB_TIMEOUT = 1500
 
 
@@ -46,6 +46,9 @@ def plan(tier, seed):
             s["delete_old"] = True
             s["delete_old_all"] = rng.random() < 0.5
             s["maxlength"] = 2000
+            # the restart file on disk is what a crash leaves: with other
+            # print frequencies it must still never list a deleted path
+            s["screen"] = rng.choice([1, 1, 0, 2, 3, 5])
             specs.append(s)
         jobs.append({"kind": "rig", "hashseed": rng.randrange(1000),
                      "specs": specs})
@@ -86,6 +89,18 @@ def _roundtrip(job, scratch):
             with open(fn, "w") as f:
                 f.write(f"content {i} {rng.random()}\n")
             files.append(fn)
+        # output.keep_traj_fnames: companion files (same stem, listed
+        # extension) next to a trajectory file are archived with it
+        keep = rng.choice([[], [], [".wfn"], [".wfn", ".restart"]])
+        store.keep_traj_fnames = keep
+        companions = {}
+        for fn in files:
+            for ext in (keep + [".other"]):
+                if rng.random() < 0.5:
+                    cf = os.path.splitext(fn)[0] + ext
+                    with open(cf, "w") as f:
+                        f.write(f"companion {ext} of {os.path.basename(fn)}\n")
+                    companions[cf] = (ext, fn)
         n = rng.randint(1, 40)
         if long_path:
             # longer than Path's default maxlen (100 000): tis_set.maxlength
@@ -125,7 +140,9 @@ def _roundtrip(job, scratch):
         path.generated = ("sh", 0.1, 3, 4)
         load = os.path.join(base, "load")
         case = {"n_frames": n, "n_files": nfiles, "ncv": ncv,
-                "energies": emode, "path_number": pn}
+                "energies": emode, "path_number": pn,
+                "keep_traj_fnames": keep,
+                "companions": sorted(os.path.basename(c) for c in companions)}
         try:
             stored = store.output(rng.randrange(1, 10 ** 6),
                                   {"path": path, "dir": load})
@@ -180,6 +197,23 @@ def _roundtrip(job, scratch):
                         os.path.basename(fr.config[0]) != sp[1]:
                     bad = ("stored-path-dangling", f"frame {k} of the path "
                            f"returned by output() -> {fr.config[0]}")
+                    break
+        if not bad and keep:
+            used = {sp[1] for sp in spec}
+            acc = os.path.join(load, str(pn), "accepted")
+            for cf, (ext, fn) in companions.items():
+                if ext not in keep or os.path.basename(fn) not in used:
+                    continue
+                res["reached"]["companion_kept"] = \
+                    res["reached"].get("companion_kept", 0) + 1
+                ev("companion_files_expected_in_archive")
+                tgt = os.path.join(acc, os.path.basename(cf))
+                want = f"companion {ext} of {os.path.basename(fn)}\n"
+                if not os.path.isfile(tgt) or open(tgt).read() != want:
+                    bad = ("companion-file-not-kept",
+                           f"{os.path.basename(cf)} (extension listed in "
+                           "keep_traj_fnames) is not in accepted/ with its "
+                           "content")
                     break
         if bad:
             res["violations"].append(dict(case, mech=bad[0], what=bad[1],
